@@ -5,8 +5,8 @@ use memmap2::Mmap;
 use serde::{Deserialize, Serialize};
 use std::collections::BTreeMap;
 use std::fs::File;
-use std::io::{BufWriter, Write};
-use std::path::Path;
+use std::io::Write;
+use std::path::{Path, PathBuf};
 use tracing::{debug, error};
 
 #[derive(Debug, Default, Serialize, Deserialize)]
@@ -86,33 +86,54 @@ impl ZoneIndex {
             .push(id);
     }
 
-    pub fn write_to_path<P: AsRef<Path>>(&self, path: P) -> Result<(), StoreError> {
-        let file = File::create(&path).map_err(|e| {
-            error!(target: "sneldb::index", error = %e, path = %path.as_ref().display(), "Failed to create file");
-            StoreError::FlushFailed(e.to_string())
-        })?;
-        let mut writer = BufWriter::new(file);
+    /// Serialises header + index into a single buffer.
+    fn to_bytes(&self) -> Result<Vec<u8>, StoreError> {
+        let mut buf = Vec::new();
         let header = BinaryHeader::new(FileKind::ZoneIndex.magic(), 1, 0);
-        header.write_to(&mut writer)?;
+        header.write_to(&mut buf)?;
 
         for (event_type, context_map) in &self.index {
             let event_type_bytes = event_type.as_bytes();
-            writer.write_all(&(event_type_bytes.len() as u32).to_le_bytes())?;
-            writer.write_all(event_type_bytes)?;
+            buf.extend_from_slice(&(event_type_bytes.len() as u32).to_le_bytes());
+            buf.extend_from_slice(event_type_bytes);
 
-            writer.write_all(&(context_map.len() as u32).to_le_bytes())?;
+            buf.extend_from_slice(&(context_map.len() as u32).to_le_bytes());
 
             for (context_id, zones) in context_map {
                 let context_bytes = context_id.as_bytes();
-                writer.write_all(&(context_bytes.len() as u32).to_le_bytes())?;
-                writer.write_all(context_bytes)?;
+                buf.extend_from_slice(&(context_bytes.len() as u32).to_le_bytes());
+                buf.extend_from_slice(context_bytes);
 
-                writer.write_all(&(zones.len() as u32).to_le_bytes())?;
+                buf.extend_from_slice(&(zones.len() as u32).to_le_bytes());
                 for id in zones {
-                    writer.write_all(&id.to_le_bytes())?;
+                    buf.extend_from_slice(&id.to_le_bytes());
                 }
             }
         }
+        Ok(buf)
+    }
+
+    /// Temporary sibling of `path` (same directory, so the final rename is atomic).
+    fn tmp_path_for(path: &Path) -> PathBuf {
+        let mut name = path.as_os_str().to_os_string();
+        name.push(".tmp");
+        PathBuf::from(name)
+    }
+
+    pub fn write_to_path<P: AsRef<Path>>(&self, path: P) -> Result<(), StoreError> {
+        // Readers may open the segment while it is still being flushed: write the complete
+        // index to a temporary file and rename it, so the final path is either absent or complete.
+        let buf = self.to_bytes()?;
+        let tmp_path = Self::tmp_path_for(path.as_ref());
+        let mut file = File::create(&tmp_path).map_err(|e| {
+            error!(target: "sneldb::index", error = %e, path = %path.as_ref().display(), "Failed to create file");
+            StoreError::FlushFailed(e.to_string())
+        })?;
+        file.write_all(&buf)?;
+        file.flush()?;
+        file.sync_all()?;
+        drop(file);
+        std::fs::rename(&tmp_path, path.as_ref())?;
 
         Ok(())
     }
@@ -120,42 +141,25 @@ impl ZoneIndex {
     pub async fn write_to_path_async<P: AsRef<Path>>(&self, path: P) -> Result<(), StoreError> {
         use tokio::io::AsyncWriteExt;
 
-        let mut file = tokio::fs::File::create(&path).await.map_err(|e| {
+        // Readers may open the segment while it is still being flushed: write the complete
+        // index to a temporary file and rename it, so the final path is either absent or complete.
+        let buf = self.to_bytes()?;
+        let tmp_path = Self::tmp_path_for(path.as_ref());
+
+        let mut file = tokio::fs::File::create(&tmp_path).await.map_err(|e| {
             error!(target: "sneldb::index", error = %e, path = %path.as_ref().display(), "Failed to create file");
             StoreError::FlushFailed(e.to_string())
         })?;
 
-        let header = BinaryHeader::new(FileKind::ZoneIndex.magic(), 1, 0);
-        let mut header_buf = Vec::with_capacity(BinaryHeader::TOTAL_LEN);
-        header.write_to(&mut header_buf)?;
-        file.write_all(&header_buf).await?;
-
-        for (event_type, context_map) in &self.index {
-            let event_type_bytes = event_type.as_bytes();
-            file.write_all(&(event_type_bytes.len() as u32).to_le_bytes())
-                .await?;
-            file.write_all(event_type_bytes).await?;
-
-            file.write_all(&(context_map.len() as u32).to_le_bytes())
-                .await?;
-
-            for (context_id, zones) in context_map {
-                let context_bytes = context_id.as_bytes();
-                file.write_all(&(context_bytes.len() as u32).to_le_bytes())
-                    .await?;
-                file.write_all(context_bytes).await?;
-
-                file.write_all(&(zones.len() as u32).to_le_bytes()).await?;
-                for id in zones {
-                    file.write_all(&id.to_le_bytes()).await?;
-                }
-            }
-        }
+        file.write_all(&buf).await?;
 
         file.sync_all().await.map_err(|e| {
             error!(target: "sneldb::index", error = %e, "Failed to sync file");
             StoreError::FlushFailed(e.to_string())
         })?;
+        drop(file);
+
+        tokio::fs::rename(&tmp_path, path.as_ref()).await?;
         Ok(())
     }
 
